@@ -4,7 +4,7 @@
     the kernel ([vm_compute] of a boolean checker over the whole table, then
     [forallb_forall]); everything that ranges over strings (paths, methods, tokens, role
     values) is proved in general and only *instantiated* with those table facts. *)
-From RN Require Import Auth.StrX Auth.StrXProofs Auth.Route Auth.Console Auth.ConsoleSpec.
+From RN Require Import Auth.StrX Auth.StrXProofs Auth.Route Auth.RouteProofs Auth.Console Auth.ConsoleSpec.
 From Coq Require Import Lia.
 Local Open Scope N_scope.
 
@@ -504,7 +504,7 @@ Lemma spellings_fail_closed_lemma : forall r raw,
 Proof.
   intros r raw Hr Ha Hm Hne.
   destruct (api_routes_need_session_lemma r Hr Ha) as [He _].
-  unfold rpath in *. destruct (r_pat r) as [s|s] eqn:Ep; [|discriminate]. cbn [pat_text pat_match] in *.
+  unfold rpath in *. destruct (r_pat r) as [s|s|es] eqn:Ep; try discriminate. cbn [pat_text pat_match] in *.
   apply str_eqb_eq in Hm.
   assert (HP : In percent raw).
   { apply requote_changed_has_percent. rewrite <- Hm. congruence. }
@@ -528,95 +528,7 @@ Proof.
 Qed.
 
 (** ------------------------------------------------------------------------------ *)
-(** * the flattened route list is what the dispatcher serves *)
-
-Lemma find_route_In : forall routes m h,
-  find_route routes m = Handler h -> exists m', In (m', h) routes /\ s2l m' = m.
-Proof.
-  induction routes as [|[m0 h0] t IH]; intros m h H; cbn [find_route] in H; [discriminate|].
-  destruct (str_eqb (s2l m0) m) eqn:E.
-  - inversion H; subst. apply str_eqb_eq in E. exists m0. split; [left; reflexivity | exact E].
-  - destruct (IH _ _ H) as [m' [Hi Em]]. exists m'. split; [right; exact Hi | exact Em].
-Qed.
-
-Lemma find_res_In : forall rs path m h,
-  find_res rs path m = Handler h ->
-  exists p routes, In (Res p routes) rs /\ pat_match p path = true /\ find_route routes m = Handler h.
-Proof.
-  induction rs as [|[p routes] t IH]; intros path m h H; cbn [find_res] in H; [discriminate|].
-  destruct (pat_match p path) eqn:E.
-  - exists p, routes. split; [left; reflexivity | auto].
-  - destruct (IH _ _ _ H) as [p' [routes' [Hi [Hp Hf]]]]. exists p', routes'. split; [right; exact Hi | auto].
-Qed.
-
-Lemma strip_prefix_spec : forall p s r, strip_prefix p s = Some r -> s = p ++ r.
-Proof.
-  induction p as [|x p IH]; intros s r H; cbn [strip_prefix] in H.
-  - inversion H. reflexivity.
-  - destruct s as [|y s]; [discriminate|]. destruct (x =? y) eqn:E; [|discriminate].
-    apply N.eqb_eq in E. subst. cbn [app]. f_equal. apply IH, H.
-Qed.
-
-Lemma strip_scope_spec : forall prefix path rest,
-  strip_scope prefix path = Some rest -> path = s2l prefix ++ rest.
-Proof.
-  intros prefix path rest H. unfold strip_scope in H.
-  destruct (strip_prefix (s2l prefix) path) as [[|c r]|] eqn:E; try discriminate.
-  - inversion H; subst. apply strip_prefix_spec, E.
-  - destruct (c =? slash); [|discriminate]. inversion H; subst. apply strip_prefix_spec, E.
-Qed.
-
-Lemma str_eqb_app_l : forall a b c, str_eqb (a ++ b) (a ++ c) = str_eqb b c.
-Proof. induction a as [|x a IH]; intros b c; cbn [app str_eqb]; [reflexivity | rewrite N.eqb_refl, IH; reflexivity]. Qed.
-
-Lemma prefixb_app_l : forall a b c, prefixb (a ++ b) (a ++ c) = prefixb b c.
-Proof. induction a as [|x a IH]; intros b c; cbn [app prefixb]; [reflexivity | rewrite N.eqb_refl, IH; reflexivity]. Qed.
-
-Lemma pat_match_prepend : forall prefix p rest,
-  pat_match (pat_prepend prefix p) (s2l prefix ++ rest) = pat_match p rest.
-Proof.
-  intros prefix p rest. destruct p as [s|s]; cbn [pat_prepend pat_match]; rewrite s2l_app.
-  - apply str_eqb_app_l.
-  - apply prefixb_app_l.
-Qed.
-
-Lemma dispatch_decoded_sound : forall ss path m h,
-  dispatch_decoded ss path m = Handler h ->
-  exists r, In r (flatten ss) /\ pat_match (r_pat r) path = true /\ s2l (r_method r) = m /\ r_handler r = h.
-Proof.
-  induction ss as [|s t IH]; intros path m h H; cbn [dispatch_decoded] in H; [discriminate|].
-  unfold flatten. cbn [map List.concat]. fold (flatten t).
-  destruct s as [[p routes]|[p routes]|prefix rs].
-  - destruct (pat_match p path) eqn:E.
-    + destruct (find_route_In _ _ _ H) as [m' [Hi Em]].
-      exists (mkRoute (pat_prepend EmptyString p) m' h). split.
-      * apply in_or_app. left. cbn [flatten_service flatten_res].
-        apply in_map with (f := fun mh => mkRoute (pat_prepend EmptyString p) (fst mh) (snd mh)) in Hi. exact Hi.
-      * cbn [r_pat r_method r_handler]. split; [|auto].
-        destruct p; cbn [pat_prepend String.append]; exact E.
-    + destruct (IH _ _ _ H) as [r [Hr Hx]]. exists r. split; [apply in_or_app; right; exact Hr | exact Hx].
-  - destruct (pat_match p path) eqn:E.
-    + destruct (find_route routes m) as [h'| |] eqn:Ef.
-      * inversion H; subst h'. destruct (find_route_In _ _ _ Ef) as [m' [Hi Em]].
-        exists (mkRoute (pat_prepend EmptyString p) m' h). split.
-        -- apply in_or_app. left. cbn [flatten_service flatten_res].
-           apply in_map with (f := fun mh => mkRoute (pat_prepend EmptyString p) (fst mh) (snd mh)) in Hi. exact Hi.
-        -- cbn [r_pat r_method r_handler]. split; [|auto].
-           destruct p; cbn [pat_prepend String.append]; exact E.
-      * destruct (IH _ _ _ H) as [r [Hr Hx]]. exists r. split; [apply in_or_app; right; exact Hr | exact Hx].
-      * destruct (IH _ _ _ H) as [r [Hr Hx]]. exists r. split; [apply in_or_app; right; exact Hr | exact Hx].
-    + destruct (IH _ _ _ H) as [r [Hr Hx]]. exists r. split; [apply in_or_app; right; exact Hr | exact Hx].
-  - destruct (strip_scope prefix path) as [rest|] eqn:E.
-    + apply strip_scope_spec in E. destruct (find_res_In _ _ _ _ H) as [p [routes [Hi [Hp Hf]]]].
-      destruct (find_route_In _ _ _ Hf) as [m' [Hm Em]].
-      exists (mkRoute (pat_prepend prefix p) m' h). split.
-      * apply in_or_app. left. cbn [flatten_service]. apply in_concat.
-        exists (flatten_res prefix (Res p routes)). split; [apply in_map; exact Hi|].
-        cbn [flatten_res].
-        apply in_map with (f := fun mh => mkRoute (pat_prepend prefix p) (fst mh) (snd mh)) in Hm. exact Hm.
-      * cbn [r_pat r_method r_handler]. subst path. rewrite pat_match_prepend. auto.
-    + destruct (IH _ _ _ H) as [r [Hr Hx]]. exists r. split; [apply in_or_app; right; exact Hr | exact Hx].
-Qed.
+(** * the flattened route list is what the dispatcher serves (general lemmas: RouteProofs.v) *)
 
 Lemma dispatch_raw_sound : forall raw m h,
   dispatch_raw console_services raw m = Handler h ->
